@@ -108,60 +108,180 @@ def run(rep, tier):
     rep.guard("R27.1", "version mangling", r1)
 
     def r3():
-        # the filter closure compares namespace and name
-        cl = [n for n in synq.walk(f.body) if n.get("k") == "closure"]
-        cmps = set()
-        for n in synq.walk(f.body):
-            if n.get("k") == "binary" and n["op"] == "==":
-                l, r = render(n["l"]), render(n["r"])
-                for fld in ("name.namespace", "name.name"):
-                    if l.endswith(fld) and r.endswith(fld):
-                        cmps.add(fld)
-        rep.ob("R27.3", "same-package test compares namespace and name", cmps == {"name.namespace", "name.name"}, f"{cmps}", f.loc())
-        ands = [n for n in synq.walk(f.body) if n.get("k") == "binary" and n["op"] == "&&" and "name.namespace" in render(n)
-                and "name.name" in render(n)]
-        rep.ob("R27.3", "both comparisons are conjoined", len(ands) == 1, "", f.loc())
-        # the counted collection has one element per same-named package, versioned or not: the only selection in the
-        # chain `resolve.packages.iter()...collect()` is the namespace-and-name test
-        counted = [(nm, init) for nm, init, st in synq.bindings(f.body) if init is not None and
-                   init.get("k") == "mcall" and init["method"] == "collect" and "packages" in render(init)]
-        rep.ob("R27.3", "one collection of the same-named packages is counted", len(counted) == 1, f"{[n for n, _ in counted]}", f.loc())
-        if len(counted) == 1:
-            root, ch = chain(counted[0][1])
-            bad = []
-            for m_, args in ch:
-                if m_ in ("iter", "collect", "into_iter", "values"):
+        # ---- resolution of expressions through lets, identity wrappers and same-file helper parameters
+        IDENT = {"as_str", "as_ref", "clone", "to_string", "to_owned", "borrow", "as_deref", "deref"}
+        helpers = {g.name: g for g in synq.all_fns(PATH) if g.name != f.name and g.body is not None}
+
+        def strip(e):
+            while e is not None:
+                k = e.get("k")
+                if k == "ref" or (k == "unary" and e["op"] == "*"):
+                    e = e["e"]
+                elif k == "mcall" and e["method"] in IDENT and not e["args"]:
+                    e = e["recv"]
+                else:
+                    break
+            return e
+
+        def resolve(e, env, depth=8):
+            """Follow plain names through `let` initialisers and helper parameters (env: name -> (expr, env))."""
+            e = strip(e)
+            while depth and e is not None and e.get("k") == "path" and e["path"] in env:
+                e, env = env[e["path"]]
+                e = strip(e)
+                depth -= 1
+            if e is not None and e.get("k") == "field":
+                b, _ = resolve(e["base"], env, depth)
+                return dict(e, base=b), env
+            return e, env
+
+        def env_of(fn, outer=None):
+            env = dict(outer or {})
+            for nm, init, st in synq.bindings(fn.body):
+                if init is not None and st["pat"].get("k") == "p_ident":
+                    env[nm] = (init, env.copy())
+            return env
+
+        # scopes: the function itself and every same-file helper it calls (one level of call depth is followed
+        # transitively up to 3), each with its parameter -> argument environment
+        scopes = [(f, env_of(f))]
+        seen = {f.name}
+        for fn, env in scopes:
+            if len(scopes) > 4:
+                break
+            for call in synq.fn_calls(fn.body):
+                nm = synq.short(call["func"]["path"])
+                if nm in helpers and nm not in seen:
+                    seen.add(nm)
+                    h = helpers[nm]
+                    penv = {}
+                    for pn, a in zip(h.params, call["args"]):
+                        if pn:
+                            penv[pn] = (a, env)
+                    scopes.append((h, env_of(h, penv)))
+        cur_pkg = "resolve.packages[id]"
+
+        def is_cur_field(e, env, fld):
+            r, _ = resolve(e, env)
+            return r is not None and render(r) == f"{cur_pkg}.name.{fld}"
+
+        # ---- every selection over `packages`: its conjuncts
+        SELECT = {"filter", "filter_map", "any", "all", "find", "position", "take_while", "skip_while", "find_map"}
+        sels = []          # (fn, method node, info)
+        for fn, env in scopes:
+            for mc in synq.method_calls(fn.body):
+                if mc["method"] not in SELECT or "packages" not in render(mc["recv"]):
                     continue
-                body = args[0]["body"] if args and args[0].get("k") == "closure" else None
-                txt = render(body) if body is not None else ""
-                is_pred = "name.namespace" in txt and "name.name" in txt
-                if m_ == "filter" and is_pred and "version" not in txt:
+                cl = mc["args"][0] if mc["args"] and mc["args"][0].get("k") == "closure" else None
+                info = {"fields": set(), "excl": False, "other": [], "fn": fn.name, "method": mc["method"]}
+                sels.append((fn, mc, info))
+                if cl is None:
+                    info["other"].append("selection is not a closure")
                     continue
-                if m_ == "filter_map" and body is not None:
-                    b = body
-                    while b.get("k") == "block" and len(b["stmts"]) == 1 and b["stmts"][0].get("k") == "expr_stmt":
-                        b = b["stmts"][0]["e"]
-                    if b.get("k") == "if" and is_pred and b.get("else") is not None:
-                        then = render(b["then"])
-                        els = render(b["else"])
-                        cond = render(b["cond"])
-                        if "version" not in cond and then.strip("{ }").startswith("Some(") and els.strip("{ }") == "None":
-                            continue
-                if m_ == "map" and body is not None:
-                    continue
-                bad.append(m_)
-            rep.ob("R27.3", "every package with the same namespace and name is counted, whatever its version", not bad,
-                   f"`{bad}` can drop a same-named package (e.g. the unversioned one) from the count, so a lone versioned "
-                   "sibling keeps the bare name and collides with it", f.loc())
-        # `if <count>.len() == 1 { return base }`
+                pv = [b["name"] for prm in cl["params"] for b in synq.walk(prm) if b.get("k") == "p_ident"]
+                body = cl["body"]
+                while body.get("k") == "block" and len(body["stmts"]) == 1 and body["stmts"][0].get("k") == "expr_stmt":
+                    body = body["stmts"][0]["e"]
+                cond = body
+                if body.get("k") == "if":
+                    cond = body["cond"]
+                    then, els = render(body["then"]).strip("{ }"), render(body.get("else")).strip("{ }")
+                    if not (then.startswith("Some(") and els == "None"):
+                        info["other"].append("filter_map body is not `if <test> { Some(..) } else { None }`")
+                conj = []
+
+                def split(c):
+                    if c.get("k") == "binary" and c["op"] == "&&":
+                        split(c["l"])
+                        split(c["r"])
+                    else:
+                        conj.append(c)
+                split(cond)
+                for cj in conj:
+                    ok = False
+                    if cj.get("k") == "binary" and cj["op"] in ("==", "!="):
+                        for a, b in ((cj["l"], cj["r"]), (cj["r"], cj["l"])):
+                            ra = render(strip(a))
+                            for fld in ("namespace", "name"):
+                                if cj["op"] == "==" and any(ra == f"{v}.name.{fld}" for v in pv):
+                                    if is_cur_field(b, env, fld):
+                                        info["fields"].add(fld)
+                                    else:
+                                        rb, _ = resolve(b, env)
+                                        info["other"].append(f"`{ra}` is compared with `{render(rb)}`, not with the package's own {fld}")
+                                    ok = True
+                            if cj["op"] == "!=" and ra in pv:
+                                rb, _ = resolve(b, env)
+                                if render(rb) == "id":
+                                    info["excl"] = True
+                                    ok = True
+                            if ok:
+                                break
+                    if not ok:
+                        info["other"].append(f"extra test `{render(cj)}`")
+        rep.ob("R27.3", "one selection of the same-named packages (in name_package_module or a helper it calls)", len(sels) == 1,
+               f"{[(i['fn'], i['method']) for _, _, i in sels]}", f.loc())
+        if len(sels) != 1:
+            return
+        sfn, smc, info = sels[0]
+        rep.ob("R27.3", "same-package test compares namespace and name with the package's own (unconverted) namespace and name",
+               info["fields"] == {"namespace", "name"} and not [o for o in info["other"] if "compared with" in o],
+               f"{sorted(info['fields'])} {info['other']}", sfn.loc(smc))
+        rep.ob("R27.3", "every package with the same namespace and name is counted, whatever its version",
+               not [o for o in info["other"] if "compared with" not in o],
+               f"{info['other']}: can drop a same-named package (e.g. the unversioned one) from the count, so a lone versioned "
+               "sibling keeps the bare name and collides with it", sfn.loc(smc))
+        # the rest of the chain around the selection does not select
+        top = smc
+        for fn, env in scopes:
+            for mc in synq.method_calls(fn.body):
+                r_, ch_ = chain(mc)
+                if any(args is smc["args"] for m_, args in ch_) and len(ch_) > len(chain(top)[1]):
+                    top = mc
+        root, ch = chain(top)
+        extra = [m_ for m_, args in ch if args is not smc["args"] and m_ not in
+                 ("iter", "collect", "into_iter", "values", "map", "count", "len", "is_empty")]
+        rep.ob("R27.3", "nothing else in the chain drops packages", not extra, f"{extra}", sfn.loc(smc))
+        # ---- how `alone` is derived from the selection
+        #  (a) <collected or counted selection without identity exclusion> == 1
+        #  (b) !<any(selection with `other != id`)>   (directly or through the helper's value)
         early = []
         for n in synq.walk(f.body):
-            if n.get("k") == "if" and n["cond"].get("k") == "binary" and n["cond"]["op"] == "==" and \
-                    render(n["cond"]["l"]).endswith(".len()") and render(n["cond"]["r"]) == "1":
+            if n.get("k") == "if" and n.get("else") is None:
                 rets = [r for r in synq.walk(n["then"]) if r.get("k") == "return"]
-                early.append((n, rets))
+                if rets and not [m_ for m_ in synq.walk(n["then"]) if m_.get("k") == "match"]:
+                    early.append((n, rets))
         rep.ob("R27.3", "a package that is alone with its name keeps the bare name", len(early) == 1 and len(early[0][1]) == 1,
                "", f.loc())
+        if len(early) != 1:
+            return
+        cond = early[0][0]["cond"]
+        env0 = scopes[0][1]
+
+        def value_of(e):
+            """the selection chain an expression denotes: through lets and a helper call's tail expression"""
+            e, _ = resolve(e, env0)
+            if e is not None and e.get("k") == "call" and e["func"].get("k") == "path" and synq.short(e["func"]["path"]) in helpers:
+                hb = helpers[synq.short(e["func"]["path"])].body
+                if hb["stmts"] and hb["stmts"][-1].get("k") == "expr_stmt":
+                    return strip(hb["stmts"][-1]["e"])
+            return e
+
+        def contains_sel(e):
+            return e is not None and any(n is smc for n in synq.walk(e))
+        form = None
+        if cond.get("k") == "binary" and cond["op"] == "==" and render(cond["r"]) == "1" and cond["l"].get("k") == "mcall" \
+                and cond["l"]["method"] in ("len", "count"):
+            src = cond["l"] if cond["l"]["method"] == "count" else cond["l"]["recv"]
+            v = value_of(src)
+            if contains_sel(v) and not info["excl"] and smc["method"] in ("filter", "filter_map"):
+                form = "count of same-named packages (itself included) == 1"
+        if cond.get("k") == "unary" and cond["op"] == "!":
+            v = value_of(cond["e"])
+            if contains_sel(v) and v is smc and smc["method"] == "any" and info["excl"]:
+                form = "no other package (`!= id`) has the same namespace and name"
+        rep.ob("R27.3", "the bare-name decision is `exactly one package has this namespace and name`", form is not None,
+               f"condition `{render(cond)}` with selection `{info['method']}` (identity exclusion: {info['excl']})", f.loc(early[0][0]))
         base_names = [nm for nm, init, st in synq.bindings(f.body) if init is not None and render(init).endswith("name.name.to_snake_case()")]
         rep.ob("R27.3", "the bare name is the snake-cased package name", len(base_names) == 1, f"{base_names}", f.loc())
         if early and base_names:
